@@ -182,6 +182,13 @@ def run_impl(p):
                     raise AssertionError("from_numpy_array depends on the memory layout of its argument")
                 return first
             o["numpy_roundtrip_layouts"] = guarded(nprt_layouts)
+            def from_ndarray_rows():
+                # the rows as a list of 1-d ndarrays, no dtype argument; an empty row is what np.array([]) gives (float64): the element
+                # type comes from the cells that exist
+                rr = [np.array(r, dtype=p["dtype"]) if len(r) else np.array([]) for r in rows]
+                return RaggedArray(rr)
+            if sum(p["lens"]) > 0:
+                o["from_ndarray_rows"] = guarded(from_ndarray_rows)
             return o
         return guarded(f)
     if p["kind"] == "flat":
@@ -268,6 +275,8 @@ def oracle(p):
         else:
             o["numpy_roundtrip"] = refuse()
         o["numpy_roundtrip_layouts"] = o["numpy_roundtrip"]
+        if sum(lens) > 0:
+            o["from_ndarray_rows"] = o["tolist"]
     return o
 
 
